@@ -41,11 +41,13 @@ type Report struct {
 	Notes       []string         `json:"notes"`
 	WallS       float64          `json:"wall_s"`
 
-	distinct map[uint64]struct{}
-	vioKeys  map[string]int
-	start    time.Time
-	deadline time.Time
-	expired  atomic.Bool // set by a real-time goroutine (works inside a synctest bubble, where time.Now is virtual)
+	distinct  map[uint64]struct{}
+	vioKeys   map[string]int
+	start     time.Time
+	deadline  time.Time
+	realMs    atomic.Int64
+	deadlineS int
+	expired   atomic.Bool // set by a real-time goroutine (works inside a synctest bubble, where time.Now is virtual)
 }
 
 func Getenv(k, def string) string {
@@ -92,13 +94,20 @@ func NewReport(property string) *Report {
 		Counters: map[string]int64{}, Exhaustive: true,
 		distinct: map[uint64]struct{}{}, vioKeys: map[string]int{}, start: time.Now()}
 	dl := atoi(os.Getenv("VERIF_DEADLINE_S"), 0)
+	r.deadlineS = dl
 	if dl > 0 {
 		r.deadline = r.start.Add(time.Duration(dl) * time.Second)
-		go func() {
-			time.Sleep(time.Duration(dl) * time.Second)
-			r.expired.Store(true)
-		}()
 	}
+	// real-time tick, usable from inside a synctest bubble (NewReport must be called outside the bubble)
+	go func() {
+		for {
+			time.Sleep(250 * time.Millisecond)
+			ms := r.realMs.Add(250)
+			if dl > 0 && ms >= int64(dl)*1000 {
+				r.expired.Store(true)
+			}
+		}
+	}()
 	return r
 }
 
@@ -116,6 +125,12 @@ func (r *Report) Expired() bool {
 	r.mu.Unlock()
 	return true
 }
+
+// RealSeconds is the real time since the report was created (also valid inside a synctest bubble).
+func (r *Report) RealSeconds() float64 { return float64(r.realMs.Load()) / 1000 }
+
+// DeadlineSeconds is the internal deadline of this run (0 = none).
+func (r *Report) DeadlineSeconds() int { return r.deadlineS }
 
 func (r *Report) Cut(note string) {
 	r.mu.Lock()
